@@ -32,7 +32,7 @@ CONSTANTS
   WrapData,    \* sequence of pre-processed data values (quarter units), one per position
   WrapMean,    \* the constant field mean (quarter units)
   WrapSqrtSill,\* sqrt(model.sill) (quarter units)
-  XGrid,       \* set of rationals: inputs of the exact normalizer pairs
+  XGrid,       \* ascending sequence of rationals: inputs of the exact normalizer pairs
   Lambdas,     \* set of rationals: parameter values of the range table
   ExactLams,   \* set of integers: parameter values of the exact pairs
   Shifts,      \* set of rationals: BoxCoxShift shifts
@@ -264,17 +264,14 @@ ExactCfgs ==
   {<<n, k, RI(0)>> : n \in {"BoxCox", "YeoJohnson", "Modulus", "Manly"}, k \in ExactLams}
   \cup {<<"BoxCoxShift", k, s>> : k \in ExactLams, s \in Shifts}
 
-RatLess(a, b) == RLt(a, b)
 ExactCase(cf) ==
-  LET xs == SortSeq(
-              CHOOSE q \in [1..Cardinality({x \in XGrid : NormDefined(cf[1], cf[2], cf[3], x)}) -> XGrid] :
-                  RangeOf(q) = {x \in XGrid : NormDefined(cf[1], cf[2], cf[3], x)},
-              RatLess)
+  LET Def(x) == NormDefined(cf[1], cf[2], cf[3], x)
+      xs     == SelectSeq(XGrid, Def)
   IN  [sec |-> "exact", norm |-> cf[1], lam |-> cf[2], shift |-> cf[3], xs |-> xs,
        ys |-> [i \in 1..Len(xs) |-> NormExact(cf[1], cf[2], cf[3], xs[i])]]
 
 InitNormExact ==
-  c \in {ExactCase(cf) : cf \in {g \in ExactCfgs : \E x \in XGrid : NormDefined(g[1], g[2], g[3], x)}}
+  c \in {ExactCase(cf) : cf \in {g \in ExactCfgs : \E i \in DOMAIN XGrid : NormDefined(g[1], g[2], g[3], XGrid[i])}}
 
 (* design checks: the documented pairs are strictly increasing on the lattice and mutually
    inverse wherever the inverse can be evaluated exactly *)
